@@ -10,6 +10,7 @@ LEVEL = 'model_checking'
 PREFIX = (('f',), ('f', 's'))
 LABELS = ('e', 'a', 'b', 'c', 'd')
 LABELS2 = ('e', 'a', 'g', 'y')     # incl. transactions / rewards paying a never-seen key twice
+LABELS3 = ('z', 'k', 'e')          # a zero-value reward output to a key that then spends all its positive outputs
 
 
 def view_digest(utxo, bal):
@@ -175,6 +176,9 @@ def run(ctx):
     hists = [h for lv in levels for h in lv]
     have = set(hists)
     hists += [h for lv in levels2 for h in lv if h not in have]
+    have = set(hists)
+    levels3 = ledger.enumerate_histories(uni, PREFIX, LABELS3, depth - 1)
+    hists += [h for lv in levels3 for h in lv if h not in have]
     ctx.log("histories per level", [len(l) for l in levels], "second menu", [len(l) for l in levels2])
     if ctx.seed:
         import random
@@ -205,7 +209,8 @@ def run(ctx):
         'histories_per_depth': [len(l) for l in levels], 'snapshots_rechecked': tot.get('snapshots', 0),
         'alternative_orders': tot.get('orders', 0), 'histories_with_same_tx_on_two_forks': shared,
         'exhaustive': True, 'bounds': {'blocks_beyond_prefix': depth, 'labels': list(LABELS),
-                                       'second_menu': {'labels': list(LABELS2), 'blocks_beyond_prefix': depth - 1}},
+                                       'second_menu': {'labels': list(LABELS2), 'blocks_beyond_prefix': depth - 1},
+                                       'third_menu': {'labels': list(LABELS3), 'blocks_beyond_prefix': depth - 1}},
         'rule': "BFS over arrival histories (any stored parent x payload menu), de-duplicated on (stored set, head); "
                 "each kept history is driven through add_block and add_block_no_validation; every stored block's "
                 "unspent set and balances are compared with the reference replay (traces_validated = per-block view "
